@@ -116,8 +116,16 @@ def main():
     for t in ths: t.start()
     for t in ths: t.join()
     shutil.rmtree(SCR, ignore_errors=True)
-    results.sort(key=lambda r: r["name"])
     tag = "seeded" if seeded else "mutants"
+    if only:
+        # partial run: merge into the existing results
+        try:
+            old = json.load(open(os.path.join(V, "selftest", "results_%s.json" % tag)))
+        except OSError:
+            old = []
+        names = {r["name"] for r in results}
+        results = [r for r in old if r["name"] not in names] + results
+    results.sort(key=lambda r: r["name"])
     json.dump(results, open(os.path.join(V, "selftest", "results_%s.json" % tag), "w"), indent=1)
     with open(os.path.join(V, "selftest", "RESULTS_%s.md" % tag), "w") as f:
         f.write("# Monitor validation against %s (tier %s)\n\n" % (tag, tier))
